@@ -181,18 +181,24 @@ def expectedWarns (k : Kind) (nm : Named) (d : Xml) : List Warn :=
        | some j => delWarns .itemNotFound nm.sources (((rc.kids[j]?).map (fun s => keysOf "item" s.kids)).getD []))
     | _ => []
 
+/-- what a delete leaves of an ID sequence: for each named source in message order, a blank
+    reference names nothing, a present ID loses its FIRST remaining occurrence (so an ID held by two
+    children goes twice only when it is named twice), an unknown ID changes nothing.  On sequences
+    whose present IDs are unique this is the filter `specIds` uses (C01/C02). -/
+def delKeys (sources ids : List Key) : List Key :=
+  sources.foldl (fun acc s => if s.isSome then acc.erase s else acc) ids
+
+/-- the ID sequence C06 promises for the edited container: the protocol's (`specIds`), except that
+    deletes are stated occurrence by occurrence so that repeated and blank IDs are covered -/
+def c06Ids (k : Kind) (tag : String) (nm : Named) (ids : List Key) : List Key :=
+  match k.group with
+  | .delete => delKeys nm.sources ids
+  | _ => specIds k tag nm ids
+
+/-- domain of C06: a running order, parseable timing, a schema-shaped message.  Nothing is asked of
+    the IDs of the edited container: they may be blank, missing or repeated. -/
 def DomC06 (i : MergeInput) : Bool :=
-  WfRO i.d && TimingOk i.d && shaped i.k i.m &&
-  match i.m.find i.k.baseTag with
-  | none => false
-  | some base =>
-    let nm := namedOf i.k base
-    match i.k.group with
-    | .delete | .insert | .send =>
-      (match containerIds i.k nm i.d with
-       | some ids => ids.all (·.isSome) && decide ids.Nodup
-       | none => true)
-    | _ => true
+  WfRO i.d && TimingOk i.d && shaped i.k i.m
 
 /-- C06: the merge raises `MosMergeError`, or it emits exactly the promised warnings and applies
     every other named element -/
@@ -206,12 +212,12 @@ def holdsC06 (i : MergeInput) (o : Res) : Bool :=
       match i.k.group with
       | .delete | .send =>
         (match containerIds i.k nm i.d, containerIds i.k nm o.ro with
-         | some ids, some ids' => ids' == specIds i.k (levelTag i.k) nm ids
+         | some ids, some ids' => ids' == c06Ids i.k (levelTag i.k) nm ids
          | none, _ => o.ro == i.d
          | _, _ => false)
       | .insert =>
         (match containerIds i.k nm i.d, containerIds i.k nm o.ro with
-         | some ids, some ids' => ids' == specIds i.k (levelTag i.k) nm ids
+         | some ids, some ids' => ids' == c06Ids i.k (levelTag i.k) nm ids
          | _, _ => false)
       | _ => true)
 
